@@ -29,6 +29,7 @@ type hcCase struct {
 		Ver int  `json:"ver"` // 1 | 2
 		Crt bool `json:"crt"` // version 2: creation order tracked (6-byte message headers)
 		Rev bool `json:"rev"` // blocks placed in descending file order
+		Gap int  `json:"gap"` // version 2: every chunk ends in a gap of this many zero bytes (fewer than a message header)
 	} `json:"cfg"`
 	Blocks   [][]hcEntry `json:"blocks"`
 	WF       bool        `json:"wf"`
@@ -121,9 +122,9 @@ func hcBuild(c *hcCase) ([]byte, uint64) {
 		case c.Cfg.Ver == 1:
 			blockLen[b] = uint64(bodyLen[b])
 		case b == 0:
-			blockLen[b] = uint64(4 + 1 + 1 + 1 + bodyLen[b] + 4)
+			blockLen[b] = uint64(4 + 1 + 1 + 1 + bodyLen[b] + c.Cfg.Gap + 4)
 		default:
-			blockLen[b] = uint64(4 + bodyLen[b] + 4)
+			blockLen[b] = uint64(4 + bodyLen[b] + c.Cfg.Gap + 4)
 		}
 		contLen[b] = blockLen[b]
 	}
@@ -163,11 +164,12 @@ func hcBuild(c *hcCase) ([]byte, uint64) {
 				if c.Cfg.Crt {
 					flags |= 0x04
 				}
-				blk.Write([]byte{'O', 'H', 'D', 'R', 2, flags, byte(len(body))})
+				blk.Write([]byte{'O', 'H', 'D', 'R', 2, flags, byte(len(body) + c.Cfg.Gap)})
 			} else {
 				blk.Write([]byte("OCHK"))
 			}
 			blk.Write(body)
+			blk.Write(make([]byte, c.Cfg.Gap))
 			var ck [4]byte
 			binary.LittleEndian.PutUint32(ck[:], lookup3.HashLittle(blk.Bytes(), 0))
 			blk.Write(ck[:])
@@ -200,7 +202,7 @@ func (b *budgetReader) ReadAt(p []byte, off int64) (int, error) {
 func (b *budgetReader) Size() int64 { return b.r.Size() }
 
 func hcOne(c *hcCase) []lib.Ev {
-	evs := []lib.Ev{{"op": "reset", "cfg": map[string]interface{}{"ver": c.Cfg.Ver, "crt": c.Cfg.Crt, "rev": c.Cfg.Rev,
+	evs := []lib.Ev{{"op": "reset", "cfg": map[string]interface{}{"ver": c.Cfg.Ver, "crt": c.Cfg.Crt, "rev": c.Cfg.Rev, "gap": c.Cfg.Gap,
 		"wf": c.WF, "expected": c.Expected, "total": c.Total, "nblocks": len(c.Blocks), "blocks": c.Blocks}}}
 	file, a0 := hcBuild(c)
 	sb := &verifapi.Superblock{Version: 2, OffsetSize: 8, LengthSize: 8, Endianness: binary.LittleEndian}
